@@ -32,8 +32,13 @@ TNext ==
     \/ (Is("Resumed") /\ Resumed(Ev.u))
     \/ (Is("Cancel") /\ Cancel(Ev.by, Ev.u))
     \/ (Is("CancelRet") /\ CancelRet(Ev.by, Ev.u))
-    \/ (Is("JoinCall") /\ ByOK(Ev.by) /\ NoOp)
-    \/ (Is("JoinRet") /\ JoinRet(Ev.by, Ev.u, Ev.st, Ev.tok))
+    \* a join by a unit is a scheduling point of that unit
+    \/ (Is("JoinCall") /\ ByOK(Ev.by)
+        /\ inYield' = (IF Ev.by > 0 THEN [inYield EXCEPT ![Ev.by] = TRUE] ELSE inYield)
+        /\ UNCHANGED <<st, arg, tok, cst, starts, mg, inpool, expect, rin>>)
+    \/ (Is("JoinRet") /\ ByOK(Ev.by) /\ st[Ev.u] = "done" /\ Ev.st = 3 /\ Ev.tok = tok[Ev.u]
+        /\ inYield' = (IF Ev.by > 0 THEN [inYield EXCEPT ![Ev.by] = FALSE] ELSE inYield)
+        /\ UNCHANGED <<st, arg, tok, cst, starts, mg, inpool, expect, rin>>)
     \/ (Is("FreeCall") /\ ByOK(Ev.by) /\ NoOp)
     \/ (Is("FreeRet") /\ FreeRet(Ev.by, Ev.u, Ev.null, Ev.tok))
     \/ (Is("Revive") /\ Revive(Ev.by, Ev.u, Ev.arg, Ev.pool))
@@ -45,7 +50,7 @@ TNext ==
     \/ (Is("Primary") /\ Primary(Ev.u))
     \/ (Is("PrimaryDone") /\ PrimaryDone(Ev.u))
     \/ (Is("Pop") /\ Pop(Ev.by, Ev.t))
-    \/ (Is("Prim") /\ Prim(Ev.u, Ev.op, Ev.t, Ev.arg))
+    \/ (Is("Prim") /\ Prim(Ev.u, Ev.op, Ev.t, Ev.arg, IF "pool" \in DOMAIN Ev THEN Ev.pool ELSE 0))
     \/ (Is("Run") /\ Run(Ev.u, Ev.of, Ev.ost, Ev.size, Ev.total))
     \/ (Is("XJoinCall") /\ NoOp)
     \/ (Is("XJoinRet") /\ Ev.term = 1 /\ AllTerminated(SeqToSet(Ev.us)) /\ NoOp)
